@@ -93,6 +93,7 @@ def expand_source_SCCs(
         # This makes the root artificially "expanded". Also, there
         # can be no attractors here because we are just fixing the source nodes.
         sd.node_data(root)["expanded"] = True
+        sd.node_data(root)["attractor_candidates"] = None
         sd.node_data(root)["attractor_seeds"] = []
         sd.node_data(root)["attractor_sets"] = []
         current_level = next_level
